@@ -22,6 +22,14 @@ CHECKS["C18"] = dict(
     note="Trusted: reference model (two lists per event); vsched semantics; scope: 3 handlers, 2 events, depth 3-5.",
     design="3/C18")
 
+CHECKS["C03"] = dict(
+    engine="vsched",
+    category="model_checking",
+    technique="stateless model checking of the implementation under a controlled scheduler with virtual time; deviation-bounded DFS where 'a timer fires early' is a deviation; narrow ackHandler harness explored unbounded",
+    text="Reply/timer races are enumerated instead of sampled: the real ackHandler against its timeout goroutine (all interleavings), sio.Server over a harness-implemented eio socket whose protocol-level client answers with right/duplicate/unknown ack ids, text and binary ACKs, before/at/after the timeout, with the connection cut mid-flight and 1-3 acks outstanding, and the Go client offline (0-3 attachments buffered, then connect and emit again) and online over an in-process polling link. Each scenario runs with an exact virtual clock (the winner is then determined) and with early-timer deviations (any instruction may take arbitrarily long; exactly-once and reply content are judged). Oracle: invocation count and arguments of every user callback, no frame of a timed-out packet sent, socket usable afterwards, no mutex held, no deadlock.",
+    note="Trusted: vsched semantics and virtual clock; in-process RoundTripper for TCP; scope: <=3 acks outstanding, deviation bound 1 (quick) / 2 (thorough) for whole-stack scenarios.",
+    design="3/C03")
+
 NOT_APPLICABLE = {
 }
 
